@@ -378,7 +378,7 @@ def life_cfg(maxops, variant, invs):
     return s
 
 
-GEN_PASSWORDS = ["gen-pw-1", "", "päss wörd", "x" * 200]
+GEN_PASSWORDS = ["gen-pw-1", "", "päss wörd", "x" * 200, " leading blank", "trailing blank ", "tab at the end\t", "  "]
 
 
 def initial_file(w, kind):
@@ -408,7 +408,7 @@ def exec_gen_history(w, hid, initial, n):
         pws = []
         for k in range(n):
             name = "gen key %d %s" % (k, hid)
-            pw = GEN_PASSWORDS[(k + len(hid)) % len(GEN_PASSWORDS)]
+            pw = GEN_PASSWORDS[(k + 3 * int(hid[1:])) % len(GEN_PASSWORDS)]
             before = sb.read("keyring.txt")
             r = cli.kestrel(["key", "generate", "-o", f, "--env-pass"], env={"KESTREL_PASSWORD": pw}, stdin=(name + "\n").encode())
             after = sb.read("keyring.txt") or b""
